@@ -2427,7 +2427,9 @@ func (c *Compiler) BuildBaseType(
 	typ2 := refType.ChildByType(parse.NodeTyp)
 	tdef := refType.Def()
 	thasdef := refType.HasDef()
-	return c.BuildType(cfgNode, typ2, tdef, thasdef, schema.Current), tname, false
+	// What the typedef refers to is judged by the typedef's own status
+	return c.BuildType(cfgNode, typ2, tdef, thasdef,
+		c.getStatus(refType, schema.Current)), tname, false
 }
 
 func (c *Compiler) CheckMinMax(n parse.Node, min, max uint) {
